@@ -395,8 +395,185 @@ def run(verbose=False):
     return total, bad, skipped
 
 
+# ---------------------------------------------------------------------------------------------------------------------
+# part 2: statement-level semantics - small function bodies executed by the engine's statement layer (branches, early
+# returns, try/except, loops over concrete ranges which the engine unrolls, container mutation, tuple unpacking, break /
+# continue / for-else): for every concrete assignment exactly one symbolic outcome must be feasible and it must be
+# CPython's outcome (returned value or exception kind).
+FUNCS = [
+    ("""
+def f(a, b):
+    if a > b:
+        return a - b
+    elif a == b:
+        return 0
+    return b
+""", {"a": ("int", SMALL), "b": ("int", SMALL)}),
+    ("""
+def f(a, xs):
+    try:
+        x = xs[a]
+    except IndexError:
+        return -100
+    return x + 1
+""", {"a": ("int", INTS), "xs": ("list", LISTS)}),
+    ("""
+def f(s):
+    try:
+        v = int(s)
+        return v * 2
+    except (ValueError, KeyError):
+        return None
+""", {"s": ("str", STRS + ["12", "-7"])}),
+    ("""
+def f(a):
+    total = 0
+    for i in range(4):
+        if i == a:
+            continue
+        if i > a + 1:
+            break
+        total += i
+    else:
+        total += 100
+    return total
+""", {"a": ("int", INTS)}),
+    ("""
+def f(a, b):
+    xs = [a, b]
+    xs.append(a + b)
+    xs[0] = 9
+    y = xs.pop()
+    return (len(xs), y, xs[-1])
+""", {"a": ("int", SMALL), "b": ("int", SMALL)}),
+    ("""
+def f(a, b):
+    x, y = (b, a)
+    x += 1
+    y -= x
+    return x * y
+""", {"a": ("int", SMALL), "b": ("int", SMALL)}),
+    ("""
+def f(o, a):
+    if o is None:
+        return a
+    if o > a:
+        return o
+    return a + o
+""", {"o": ("optint", [None, 0, 2]), "a": ("int", SMALL)}),
+    ("""
+def f(s):
+    if s.startswith("n"):
+        s = s[1:]
+    if len(s) >= 3 and s.endswith("a"):
+        s = s[:-1]
+    if len(s) == 3 and s[0].lower() in ("c", "t"):
+        return s[0].lower() + s[1].upper() + s[2].upper()
+    return "other"
+""", {"s": ("str", STRS + ["cww", "tHSa", "nCwwa", "na", "a"])}),
+    ("""
+def f(a, b):
+    if b == 0:
+        raise ValueError("zero")
+    return a % b
+""", {"a": ("int", SMALL), "b": ("int", SMALL)}),
+    ("""
+def f(a, xs):
+    found = None
+    for x in [3, 1, 2]:
+        if x == a:
+            found = x
+            break
+    if found is None:
+        return len(xs)
+    return found + len(xs)
+""", {"a": ("int", SMALL), "xs": ("list", LISTS)}),
+    ("""
+def f(a):
+    assert a != 1
+    t = (a, a + 1, a + 2)
+    return t[a]
+""", {"a": ("int", INTS)}),
+    ("""
+def f(a, b):
+    m = a if a > b else b
+    flag = a < b <= 3 or not b
+    return (m, flag)
+""", {"a": ("int", SMALL), "b": ("int", SMALL)}),
+]
+
+
+def run_functions(verbose=False):
+    eng = make_engine()
+    bad, total, skipped = [], 0, []
+    for src, vars_ in FUNCS:
+        fdef = ast.parse(src.strip()).body[0]
+        glob = {}
+        exec(compile(ast.parse(src.strip()), "<xcheck>", "exec"), glob)
+        fn = glob["f"]
+        st = State()
+        subfns = {}
+        for name, (kind, dom) in vars_.items():
+            st.env[name], subfns[name] = symbolic(eng, name, kind, dom)
+        eng.spec, eng.guard, eng.mayraise = False, [], []
+        eng.cur_name, eng.cur_locals, eng.cur_loops, eng.cur_ghost = "xcheck", {}, {}, []
+        eng.number_loops(fdef)
+        try:
+            outs = eng.exec_block(fdef.body, st)
+        except Unsupported as e:
+            skipped.append((src.strip().splitlines()[1].strip(), str(e)))
+            continue
+        names = list(vars_)
+        for combo in itertools.product(*[vars_[n][1] for n in names]):
+            total += 1
+            env = dict(zip(names, combo))
+            subs = [p for n, v in env.items() for p in subfns[n](v)]
+            try:
+                want = ("value", fn(**{k: (list(v) if isinstance(v, list) else v) for k, v in env.items()}))
+            except Exception as e:
+                want = ("raise", type(e).__name__)
+            feasible = []
+            for o in outs:
+                d = decide(z3.And(*[to_z3(c) for c in o.st.pc]) if o.st.pc else z3.BoolVal(True), subs)
+                if d is None:
+                    sv = z3.Solver()
+                    sv.add(z3.substitute(z3.And(*[to_z3(c) for c in o.st.pc]), *subs))
+                    d = sv.check() == z3.sat
+                if d:
+                    feasible.append(o)
+            if len(feasible) != 1:
+                bad.append((src.strip().splitlines()[1].strip(), env, f"CPython {want}", f"{len(feasible)} feasible symbolic outcomes"))
+                continue
+            o = feasible[0]
+            if want[0] == "raise":
+                if o.kind != "raise" or o.exc != want[1]:
+                    bad.append((src.strip().splitlines()[1].strip(), env, f"CPython raises {want[1]}", f"engine outcome {o.kind} {o.exc or ''}"))
+                continue
+            if o.kind == "raise":
+                bad.append((src.strip().splitlines()[1].strip(), env, f"CPython value {want[1]!r}", f"engine raises {o.exc}"))
+                continue
+            val = o.value if o.kind == "return" else None
+            got = concretise(val, subs, eng)
+            if isinstance(got, tuple) and got and isinstance(got[0], str) and got[0].startswith("?") or not same(want[1], got):
+                # value characterised by assumed facts: consistency + determinacy
+                try:
+                    eqc = z3.BoolVal(val is None) if want[1] is None and not isinstance(val, VOpt) else equate(val, want[1])
+                except Exception as e:
+                    bad.append((src.strip().splitlines()[1].strip(), env, f"CPython value {want[1]!r}", f"engine value {got!r}"))
+                    continue
+                sv = z3.Solver()
+                for f_ in list(o.st.pc) + list(eng.global_facts):
+                    sv.add(z3.substitute(to_z3(f_), *subs))
+                sv.add(z3.Not(z3.substitute(eqc, *subs)))
+                if sv.check() != z3.unsat:
+                    bad.append((src.strip().splitlines()[1].strip(), env, f"CPython value {want[1]!r}", f"engine value {got!r}"))
+    return total, bad, skipped
+
+
 if __name__ == "__main__":
     total, bad, skipped = run("-v" in sys.argv)
+    t2, b2, s2 = run_functions("-v" in sys.argv)
+    total, bad, skipped = total + t2, bad + b2, skipped + s2
     for expr, why in skipped:
         print(f"skipped (engine rejects it as Unsupported, which is allowed): {expr}: {why}")
     for expr, env, a, b in bad[:40]:
@@ -404,5 +581,5 @@ if __name__ == "__main__":
     wk = sorted({e for e, _ in weak})
     if wk:
         print(f"weak (sound but underdetermined) on {len(weak)} evaluations of: {wk}")
-    print(f"xcheck: {len(SNIPPETS) - len(skipped)} expressions, {total} concrete evaluations, {len(bad)} disagreements")
+    print(f"xcheck: {len(SNIPPETS) + len(FUNCS) - len(skipped)} expressions / function bodies, {total} concrete evaluations, {len(bad)} disagreements")
     sys.exit(3 if bad else 0)
